@@ -107,15 +107,23 @@ class CompMixin:
 
     def _elem_under(self, st, d: Domain, g, idx, exprs):
         """Evaluate `exprs` with the comprehension variable bound to the element at idx (a fresh const),
-        under the guard 'idx in domain'.  Returns (guard, filter, [values])."""
+        under the guard 'idx in domain'.  Returns (guard, filter, [values], axioms).
+
+        Fresh constants introduced while evaluating the element (results of contracted calls, defined
+        arrays) depend on idx: they are replaced by applications of fresh functions of idx, and the facts
+        that constrain them become universally quantified axioms the caller must assume."""
+        mark = int(fresh_name("mark").split("!")[1])
         if d.kind == "set":
             guard = z3.Select(d.dom, idx)
         else:
             guard = z3.And(0 <= idx, idx < d.length)
         el = d.elem(idx)
+        pushed = [guard]
         st_b = self.bind_target(st.assume(guard), g.target, el)
         if not self.spec:
+            n0 = len(st_b.pc)
             st_b = self.assume_wf(st_b, el)
+            pushed += st_b.pc[n0:]
         flt = z3.BoolVal(True)
         for cond in g.ifs:
             pv, info = self.ev_pure(cond, st_b)
@@ -124,6 +132,7 @@ class CompMixin:
             st_b = info
             c = truth(self.as_value(pv))
             flt = z3.And(flt, c)
+            pushed.append(c)
             st_b = st_b.assume(c)
         out = []
         for ex in exprs:
@@ -134,19 +143,48 @@ class CompMixin:
                     # the element expression may raise for some member: surface it on the current path
                     self.excs[-1].extend(excs)
                     if len(res) == 1:
-                        pv = res[0][1]
+                        st_b, pv = res[0]
                     else:
                         raise EngineError(f"comprehension element splits: {ast.unparse(ex)}")
                 else:
                     raise EngineError(f"comprehension element has effects: {ast.unparse(ex)}")
+            else:
+                st_b = info
             out.append(pv)
-        return guard, flt, out, st_b
+        facts = [p for p in st_b.pc[len(st.pc):] if not any(p.eq(q) for q in pushed)]
+        axioms = []
+        if facts:
+            from .stmts import _consts
+            terms = list(facts) + [z for v in out if isinstance(v, V) for z in v.zs] + [flt]
+            sub = []
+            seen = set()
+            for t_ in terms:
+                for c in _consts(t_):
+                    nm = str(c)
+                    if "!" in nm and c.get_id() not in seen and not c.eq(idx):
+                        try:
+                            num = int(nm.split("!")[1].split("_")[0])
+                        except ValueError:
+                            continue
+                        if num > mark:
+                            seen.add(c.get_id())
+                            f = z3.Function(fresh_name("sk_" + nm.split("!")[0]), idx.sort(), c.sort())
+                            sub.append((c, f(idx)))
+            if sub:
+                facts = [z3.substitute(f_, *sub) for f_ in facts]
+                flt = z3.substitute(flt, *sub)
+                pushed = [z3.substitute(p_, *sub) for p_ in pushed]
+                out = [V(v.t, [z3.substitute(z, *sub) for z in v.zs]) if isinstance(v, V) else v for v in out]
+            axioms.append(z3.ForAll([idx], z3.Implies(z3.And(*pushed), z3.And(*facts))))
+        return guard, flt, out, axioms
 
     def quantify(self, st: State, node, universal: bool):
         """all(...)/any(...) over a generator expression -> z3 quantifier."""
         st1, d, g = self.comp_body(st, node.generators, node.elt)
         idx = z3.Const(fresh_name("q"), zsort(d.kt) if d.kind == "set" else z3.IntSort())
-        guard, flt, (body,), _ = self._elem_under(st1, d, g, idx, [node.elt])
+        guard, flt, (body,), axs = self._elem_under(st1, d, g, idx, [node.elt])
+        for a_ in axs:
+            st1 = st1.assume(a_)
         b = truth(self.as_value(body))
         if universal:
             return st1, z3.ForAll([idx], z3.Implies(z3.And(guard, flt), b))
@@ -160,7 +198,9 @@ class CompMixin:
         if d.kind == "seq" and not g.ifs:
             # map over a sequence: fresh sequence, same length, pointwise defined
             i = z3.Int(fresh_name("i"))
-            guard, flt, (body,), _ = self._elem_under(st1, d, g, i, [e.elt])
+            guard, flt, (body,), axs = self._elem_under(st1, d, g, i, [e.elt])
+            for a_ in axs:
+                st1 = st1.assume(a_)
             body = self.as_value(body)
             r = fresh(TSeq(body.t), "lc")
             conj = [r.zs[0] == d.length]
@@ -177,7 +217,9 @@ class CompMixin:
     def filtered_seq(self, st, d, g, elt):
         """[f(x) for x in seq if c(x)] -> fresh sequence r with an order-preserving index map (ghost)."""
         i = z3.Int(fresh_name("i"))
-        guard, flt, (body,), _ = self._elem_under(st, d, g, i, [elt])
+        guard, flt, (body,), axs = self._elem_under(st, d, g, i, [elt])
+        for a_ in axs:
+            st = st.assume(a_)
         body = self.as_value(body)
         r = fresh(TSeq(body.t), "fl")
         src = z3.Function(fresh_name("src"), z3.IntSort(), z3.IntSort())   # index in d of r's j-th element
@@ -205,7 +247,9 @@ class CompMixin:
         if d.kind != "set":
             raise EngineError("dict comprehension over a sequence")
         idx = z3.Const(fresh_name("c"), zsort(d.kt))
-        guard, flt, (k, v), _ = self._elem_under(st1, d, g, idx, [e.key, e.value])
+        guard, flt, (k, v), axs = self._elem_under(st1, d, g, idx, [e.key, e.value])
+        for a_ in axs:
+            st1 = st1.assume(a_)
         k, v = self.as_value(k), self.as_value(v)
         if not (k.t == d.kt and k.zs[0].eq(idx)):
             raise EngineError("dict comprehension with a non-identity key")
@@ -222,7 +266,9 @@ class CompMixin:
         if d.kind == "seq":
             if not g.ifs:
                 i = z3.Int(fresh_name("i"))
-                guard, flt, (body,), _ = self._elem_under(st1, d, g, i, [elt])
+                guard, flt, (body,), axs = self._elem_under(st1, d, g, i, [elt])
+                for a_ in axs:
+                    st1 = st1.assume(a_)
                 body = self.as_value(body)
                 r = fresh(TSeq(body.t), "ge")
                 conj = [r.zs[0] == d.length]
@@ -232,7 +278,9 @@ class CompMixin:
                 return st1.assume(z3.And(*conj)), r
             return self.filtered_seq(st1, d, g, elt)
         idx = z3.Const(fresh_name("c"), zsort(d.kt))
-        guard, flt, (body,), st_b = self._elem_under(st1, d, g, idx, [elt])
+        guard, flt, (body,), axs = self._elem_under(st1, d, g, idx, [elt])
+        for a_ in axs:
+            st1 = st1.assume(a_)
         body = self.as_value(body)
         st1, dom = self.def_array(st1, idx, z3.And(guard, flt), "bag")
 
